@@ -50,8 +50,14 @@ func loadFindings(path string) *findings {
 // finding's class, and the failure is a spec failure (a disagreement with the model is never suppressed:
 // suppression is model-relative — the code must still behave exactly as the modelled code does).
 func (f *findings) match(prop string, fl *Failure) string {
+	id, _ := f.matchClause(prop, fl)
+	return id
+}
+
+// matchClause also reports which listed clause substring matched.
+func (f *findings) matchClause(prop string, fl *Failure) (string, string) {
 	if fl.Class != "spec" {
-		return ""
+		return "", ""
 	}
 	for _, k := range f.list {
 		if k.Status != "open" {
@@ -66,11 +72,14 @@ func (f *findings) match(prop string, fl *Failure) string {
 		if !listed {
 			continue
 		}
+		matched := "*"
 		if subs, has := k.Clauses[prop]; has {
 			hit := false
 			for _, sub := range subs {
 				if strings.Contains(fl.Clause, sub) {
 					hit = true
+					matched = sub
+					break
 				}
 			}
 			if !hit {
@@ -79,10 +88,10 @@ func (f *findings) match(prop string, fl *Failure) string {
 		}
 		pred, ok := classPredicates[k.Class]
 		if ok && pred(&fl.Case, fl) {
-			return k.ID
+			return k.ID, matched
 		}
 	}
-	return ""
+	return "", ""
 }
 
 // classPredicates are the executable class predicates of the known findings (mirrored in GoLucene/Findings.lean).
